@@ -27,6 +27,8 @@ pub enum Sv {
     Char(u32),
     Int(String),
     Enum(String),
+    /// lower-case hyphenated
+    Uuid(String),
 }
 
 /// A field as the handler saw it.
@@ -34,9 +36,8 @@ pub enum Sv {
 pub enum Fv {
     One(Sv),
     Opt(Option<Sv>),
-    Seq(Vec<String>),
-    /// `Vec<u32>` of the JSON body (a repeated field)
-    Nums(Vec<String>),
+    /// a sequence: the wildcard path variable, a repeated JSON member
+    Seq(Vec<Sv>),
 }
 
 #[derive(Clone, Debug, PartialEq, Eq, Serialize, Deserialize, JsonSchema)]
@@ -74,6 +75,11 @@ impl EchoScalar for String {
 impl EchoScalar for bool {
     fn sv(&self) -> Sv {
         Sv::Bool(*self)
+    }
+}
+impl EchoScalar for uuid::Uuid {
+    fn sv(&self) -> Sv {
+        Sv::Uuid(self.hyphenated().to_string())
     }
 }
 impl EchoScalar for char {
@@ -119,6 +125,9 @@ pub trait EchoStruct {
 }
 fn one<T: EchoScalar>(n: &str, v: &T) -> (String, Fv) {
     (n.to_string(), Fv::One(v.sv()))
+}
+fn seq<T: EchoScalar>(v: &[T]) -> Fv {
+    Fv::Seq(v.iter().map(|x| x.sv()).collect())
 }
 fn opt<T: EchoScalar>(n: &str, v: &Option<T>) -> (String, Fv) {
     (n.to_string(), Fv::Opt(v.as_ref().map(|x| x.sv())))
@@ -203,12 +212,35 @@ pub struct PW {
 }
 impl EchoStruct for PW {
     fn fields(&self) -> Vec<(String, Fv)> {
-        vec![one("h", &self.h), ("rest".to_string(), Fv::Seq(self.rest.clone()))]
+        vec![one("h", &self.h), ("rest".to_string(), seq(&self.rest))]
     }
 }
 async fn h_pw(rqctx: RequestContext<Ctx>, p: Path<PW>) -> R {
     let mut e = enter(&rqctx);
     e.structs.push(p.into_inner().fields());
+    Ok(HttpResponseOk(e))
+}
+
+/// wildcards whose elements are typed strings with a validating Deserialize
+#[derive(Deserialize, JsonSchema)]
+pub struct PWT<T> {
+    pub rest: Vec<T>,
+}
+async fn h_pwt<T: Sc>(rqctx: RequestContext<Ctx>, p: Path<PWT<T>>) -> R {
+    let mut e = enter(&rqctx);
+    e.structs.push(vec![("rest".to_string(), seq(&p.into_inner().rest))]);
+    Ok(HttpResponseOk(e))
+}
+/// ... behind a typed single variable
+#[derive(Deserialize, JsonSchema)]
+pub struct PHT<T> {
+    pub h: u16,
+    pub rest: Vec<T>,
+}
+async fn h_pht<T: Sc>(rqctx: RequestContext<Ctx>, p: Path<PHT<T>>) -> R {
+    let mut e = enter(&rqctx);
+    let p = p.into_inner();
+    e.structs.push(vec![one("h", &p.h), ("rest".to_string(), seq(&p.rest))]);
     Ok(HttpResponseOk(e))
 }
 
@@ -294,7 +326,7 @@ impl EchoStruct for BJ {
             one("c", &self.c),
             one("e", &self.e),
             opt("o", &self.o),
-            ("l".to_string(), Fv::Nums(self.l.iter().map(|x| x.to_string()).collect())),
+            ("l".to_string(), seq(&self.l)),
             one("d", &self.d),
         ]
     }
@@ -458,7 +490,7 @@ pub fn build_api() -> (ApiDescription<Ctx>, Ctx) {
     reg_scalars!(api, ops,
         "str" => String, "u8" => u8, "u16" => u16, "u32" => u32, "u64" => u64, "u128" => u128,
         "i8" => i8, "i16" => i16, "i32" => i32, "i64" => i64, "i128" => i128,
-        "bool" => bool, "char" => char, "enum" => Color);
+        "bool" => bool, "char" => char, "enum" => Color, "uuid" => uuid::Uuid);
     macro_rules! reg {
         ($op:literal, $h:expr, $m:expr, $ct:expr, $path:literal) => {
             api.register(ApiEndpoint::new($op.to_string(), $h, $m, $ct, $path, ApiEndpointVersions::All))
@@ -469,6 +501,11 @@ pub fn build_api() -> (ApiDescription<Ctx>, Ctx) {
     reg!("pm", h_pm, Method::GET, JSON, "/pm/{a}/lit/{b-b}/{c}");
     reg!("pw", h_pw, Method::GET, JSON, "/pw/{h}/{rest:.*}");
     reg!("po", h_po, Method::GET, JSON, "/po/{v}");
+    reg!("pwt_enum", h_pwt::<Color>, Method::GET, JSON, "/colors/{rest:.*}");
+    reg!("pwt_uuid", h_pwt::<uuid::Uuid>, Method::GET, JSON, "/ids/{rest:.*}");
+    reg!("pwt_str", h_pwt::<String>, Method::GET, JSON, "/words/{rest:.*}");
+    reg!("pht_char", h_pht::<char>, Method::GET, JSON, "/chars/{h}/{rest:.*}");
+    reg!("pht_enum", h_pht::<Color>, Method::GET, JSON, "/hc/{h}/{rest:.*}");
     reg!("qm", h_qm, Method::GET, JSON, "/qm");
     reg!("bj", h_bj, Method::PUT, JSON, "/b/json");
     reg!("bf", h_bf, Method::PUT, FORM, "/b/form");
